@@ -478,7 +478,7 @@ pub fn set_case(f: impl FnOnce() -> String) {
     });
 }
 
-fn current_case() -> String {
+pub fn current_case() -> String {
     CUR.with(|c| String::from_utf8_lossy(unsafe { &(&*c.buf.get())[..c.len.get()] }).into_owned())
 }
 
